@@ -175,6 +175,45 @@ def pressure_abort(rng, res):
     return fails
 
 
+def lookahead_conflict(rng, res):
+    """a statement whose sequential scan loses a lock conflict on the row AFTER one it is about to change (the scan reads one row
+    ahead): whatever it changed before being aborted must be undone by the abort"""
+    from dbsession import DB
+    db = DB(mem_kb=400)
+    fails = []
+    try:
+        if not db.open().startswith("ok"):
+            return [("open", "database does not start")]
+        db.sql("CREATE TABLE la(k int, g int, v varchar(255));")
+        n = rng.randrange(4, 9)
+        for i in range(n):
+            db.sql("INSERT INTO la(k,g,v) VALUES (%d, %d, 'v%d');" % (i, i * 10, i))
+        for _ in range(6):
+            before = (db.cmd("scan la"), db.cmd("idx la 0"), db.cmd("idx la 1"), db.cmd("idx la 2"))
+            locked = rng.randrange(1, n)
+            target = rng.randrange(0, locked)               # a row before the locked one in heap order
+            db.cmd("begin h"); db.cmd("begin a")
+            db.cmd("tsql h UPDATE la SET g = %d WHERE k = %d;" % (500 + locked, locked))
+            stmt = rng.choice(["UPDATE la SET g = 999 WHERE k = %d OR k = %d;" % (target, target),
+                               "UPDATE la SET v = '%s' WHERE k >= %d OR k >= %d;" % ("w" * rng.choice([3, 120]), target, target),
+                               "DELETE FROM la WHERE k = %d OR k = %d;" % (target, target),
+                               "UPDATE la SET k = %d WHERE g = %d OR g = %d;" % (700 + target, target * 10, target * 10)])
+            a = db.cmd("tsql a " + stmt)
+            db.cmd("abort a"); db.cmd("abort h")
+            after = (db.cmd("scan la"), db.cmd("idx la 0"), db.cmd("idx la 1"), db.cmd("idx la 2"))
+            res.note_case("lookahead|%s|%d|%d|%s" % (stmt.split()[0], target, locked, a[:7]), True)
+            if db.dead:
+                fails.append(("# session:\n" + "\n".join(db.log[-20:]), "engine stopped answering: " + db.dead)); break
+            if before != after:
+                which = [nm for nm, b, c in zip(("rows (with row ids)", "index on k", "index on g", "index on v"), before, after) if b != c]
+                fails.append(("# session:\n" + "\n".join(db.log[-(n + 16):]), "row %d is X-locked by another open transaction; `%s` (answer %s) and both aborts leave %s changed: before %s | after %s" % (
+                    locked, stmt, a[:20], ", ".join(which), before[0][:200], after[0][:200])))
+                break
+    finally:
+        db.destroy()
+    return fails
+
+
 def hash_probe(res):
     rng = random.Random(3)
     m = Mirror(rng)
@@ -203,6 +242,10 @@ def run(res, replay=None):
     if not go_ok:
         return
     rng = random.Random(res.seed)
+    for _ in range(4 if res.tier == "quick" else 40):
+        for d, w in lookahead_conflict(rng, res):
+            if len(res.oracle_failures) < 5:
+                res.oracle_failures.append((d, w))
     for _ in range(6 if res.tier == "quick" else 60):
         for d, w in pressure_abort(rng, res):
             if len(res.oracle_failures) < 5:
